@@ -31,7 +31,7 @@ def ensure_registered():
         pass
 
     @stix2.v21.CustomExtension("x-stixmon-ext", [("level", P.IntegerProperty(required=True)), ("note", P.StringProperty()),
-                                                 ("at", P.TimestampProperty())])
+                                                 ("seen_at", P.TimestampProperty())])
     class Ext21(object):
         pass
 
@@ -140,7 +140,7 @@ def file_with_ext(g):
     if rng.random() < 0.5:
         ext["x-stixmon-ext"]["note"] = V.string(rng, g.hostile)
     if rng.random() < 0.5:
-        ext["x-stixmon-ext"]["at"] = g.ts_value({"precision": "any", "constraint": "exact"})
+        ext["x-stixmon-ext"]["seen_at"] = g.ts_value({"precision": "any", "constraint": "exact"})
     o["extensions"] = ext
     return o
 
